@@ -206,6 +206,9 @@ M = [
  ('C02', 'SMARTS descriptor matches not reduced to atom sets', G+'Scheme.py',
   "            matches = mol.GetSubstructMatches(descriptor['smarts'],\n                                              useChirality=descriptor\n                                              ['useChirality'])",
   "            matches = mol.GetSubstructMatches(descriptor['smarts'],\n                                              useChirality=descriptor\n                                              ['useChirality'], uniquify=False)\n            matches = [tuple(m) for m in matches]\n            descriptors[descriptor['name']] += len(matches)\n            matches = []"),
+ ('C08', 'allylic prefix inverted', RW+'MolQuery.py',
+  "        if self.negate and yes:\n            raise MolQueryError('AtomAllylic: False.')\n        elif not self.negate and not yes:",
+  "        if self.negate and yes:\n            raise MolQueryError('AtomAllylic: False.')\n        elif not self.negate and yes:"),
  ('C17', 'duplicate test compares atom counts only', RW+'GenRxnNet.py',
   "                        if mol1.GetNumAtoms() == mol2.GetNumAtoms() and \\\n                            mol1.GetNumAtoms() == len(mol1.GetSubstructMatch\n                                                      (mol2)):",
   "                        if mol1.GetNumAtoms() == mol2.GetNumAtoms() and \\\n                            mol1.GetNumHeavyAtoms() == mol2.GetNumHeavyAtoms():"),
